@@ -72,6 +72,9 @@ type testCase struct {
 	// PanicAlways: a panicking query panics even when one of its Resolve calls returned an error (the Run is
 	// already cancelled by an earlier panic). Replay only: IncExec's queries return that error instead.
 	PanicAlways bool `json:"panic_always,omitempty"`
+	// Rendezvous: these queries wait for each other at the start of Execute (before their first Resolve), so
+	// that their first requests of a common fresh dependency coincide. Replay only.
+	Rendezvous []string `json:"rendezvous,omitempty"`
 }
 
 type mismatch struct {
@@ -113,6 +116,7 @@ type world struct {
 	execs   map[string]int            // Execute entries since the key's last eviction
 	execRun map[string]map[string]int // run label -> key -> Execute entries
 	flags   map[string]map[string][]bool
+	arrived map[string]*atomic.Int32
 }
 
 type node struct {
@@ -135,6 +139,7 @@ func (n node) Execute(t *incremental.Task) (int, error) {
 	w.execRun[label][n.name]++
 	w.mu.Unlock()
 
+	w.rendezvous(label, n.name)
 	acc := acc0(w.idx[n.name])
 	var fatal error
 	for _, batch := range w.tc.Cfg.Bat[n.name] {
@@ -167,6 +172,37 @@ func (n node) Execute(t *incremental.Task) (int, error) {
 	v := w.ver[n.name]
 	w.mu.Unlock()
 	return finalV(acc, v), nil
+}
+
+// rendezvous parks a query of tc.Rendezvous until all of them have arrived in this Run (or 20 ms have passed:
+// some of them may be memoised, or parallelism may be too low).
+func (w *world) rendezvous(label, name string) {
+	n := len(w.tc.Rendezvous)
+	if n == 0 {
+		return
+	}
+	member := false
+	for _, r := range w.tc.Rendezvous {
+		member = member || r == name
+	}
+	if !member {
+		return
+	}
+	w.mu.Lock()
+	if w.arrived == nil {
+		w.arrived = map[string]*atomic.Int32{}
+	}
+	c := w.arrived[label]
+	if c == nil {
+		c = &atomic.Int32{}
+		w.arrived[label] = c
+	}
+	w.mu.Unlock()
+	c.Add(1)
+	dl := time.Now().Add(20 * time.Millisecond)
+	for int(c.Load()) < n && time.Now().Before(dl) {
+		runtime.Gosched()
+	}
 }
 
 // sawFlag records the Changed flag of a completed, error-free result (C33 quantifies over
@@ -842,7 +878,11 @@ func main() {
 		defer tw.Flush()
 	}
 	tr := &tracer{}
-	verifhook.SetTrace(tr.emit)
+	if *tracePath != "" {
+		// With a tracer installed the hooks serialise the bracketed steps (e.g. the getOrCreateTask / edge-store
+		// loop of one Resolve). Runs without -trace leave them unsynchronised, as in the untagged build.
+		verifhook.SetTrace(tr.emit)
+	}
 	verifhook.SetGate(gate)
 	holdCh = map[string]chan struct{}{}
 	gateSeed = mix(*seed)
@@ -867,8 +907,8 @@ func main() {
 			gateLevel.Store(int32((rep + int(*seed)) % 3))
 			gateSeed = mix(*seed*1000003 + uint64(tc.ID)*131 + uint64(rep))
 			res, events := r.runCase(&tc, rep)
-			if tc.PanicAlways {
-				res.Traced = false // not a behaviour of the model's queries
+			if tc.PanicAlways || len(tc.Rendezvous) > 0 {
+				res.Traced = false // not a behaviour of the model's queries / outside the validated node universe
 			}
 			_ = enc.Encode(res)
 			ow.Flush() // one line per finished execution: if the process dies the engine knows which case was running
